@@ -48,6 +48,8 @@ func checkC07(p *Prog, r *Report) {
 	sliceEqualityHelpers(p, r, "R13")
 	r.Rule("R14", "the announcement renderers (Information of the local device, entity and feature) build their result from the live state on every call: no result is a pointer kept in a field of the object (a memoised rendering goes stale when a description or function changes later), and rendering assigns no field of the object")
 	c07Renderers(p, r)
+	r.Rule("R15", "every peer that asks is subscribed to node management: the duplicate scan of AddSubscription compares the whole server and client feature objects with the ones the new entry is built from — two peers whose device address is not known yet have equal client addresses, a scan by address rejects the second and it is never told about entities (shared with C08-R11)")
+	scanContentRule(p, r, "R15", subMgr, []string{"ServerFeature", "ClientFeature"})
 	r.Assumes("the closure returned by the id generator factory is only stored in Entity.fIdGenerator")
 }
 
